@@ -33,7 +33,7 @@ use serde::Deserialize;
 use serde_json::{json, Value};
 use shred::{
     cell::{AtomicRef, AtomicRefMut},
-    CastFrom, Fetch, FetchMut, MetaTable, Read, Resource, ResourceId, SystemData, World, Write,
+    CastFrom, Fetch, FetchMut, MetaIter, MetaIterMut, MetaTable, Read, Resource, ResourceId, SystemData, World, Write,
 };
 
 // ------------------------------------------------------------------ idents and drop counts
@@ -586,9 +586,17 @@ pub fn on_pool<R>(f: impl FnOnce() -> R) -> R {
     }
 }
 
+/// a live meta-table iterator (an object of the history like a guard)
+pub enum IterBox {
+    R(MetaIter<'static, dyn Probe>),
+    W(MetaIterMut<'static, dyn Probe>),
+}
+
 pub struct Driver {
     world: *mut World,
     pub table: BTreeMap<u32, GEntry>,
+    /// live meta-table iterators
+    pub iters: BTreeMap<u32, IterBox>,
     /// abstract type (1-based) -> concrete type index
     pub tymap: Vec<usize>,
     /// abstract dynamic id -> real dynamic id (0 -> 0)
@@ -606,9 +614,10 @@ impl Drop for Driver {
             // the world is in a state the library never reaches: running destructors of guards or
             // cells could panic inside a panic; leak everything instead
             std::mem::forget(std::mem::take(&mut self.table));
+            std::mem::forget(std::mem::take(&mut self.iters));
             return;
         }
-        let t = std::mem::take(&mut self.table);
+        let t = (std::mem::take(&mut self.iters), std::mem::take(&mut self.table));
         if catch_unwind(AssertUnwindSafe(move || drop(t))).is_err() {
             return; // a guard's destructor panicked (corrupted counter): leak the world
         }
@@ -629,7 +638,7 @@ impl Driver {
         for &ci in &tymap {
             with_ty!(ci, T => meta.register::<T>());
         }
-        Driver { world: Box::into_raw(Box::new(World::empty())), table: BTreeMap::new(), tymap, dynmap, meta: Box::into_raw(Box::new(meta)), abort: None, ctor_state: 0x9E3779B97F4A7C15, last_ctor: 0 }
+        Driver { world: Box::into_raw(Box::new(World::empty())), table: BTreeMap::new(), iters: BTreeMap::new(), tymap, dynmap, meta: Box::into_raw(Box::new(meta)), abort: None, ctor_state: 0x9E3779B97F4A7C15, last_ctor: 0 }
     }
     pub fn meta(&self) -> &'static MetaTable<dyn Probe> {
         unsafe { &*self.meta }
@@ -648,7 +657,7 @@ impl Driver {
     }
     #[allow(clippy::mut_from_ref)]
     fn wm(&self) -> &'static mut World {
-        assert!(self.table.is_empty(), "harness: &mut World call while guards are live");
+        assert!(self.table.is_empty() && self.iters.is_empty(), "harness: &mut World call while guards or iterators are live");
         unsafe { &mut *self.world }
     }
     pub fn ci(&self, ty: u32) -> usize {
@@ -704,7 +713,7 @@ impl Driver {
     // -------------------------------------------------------------- observation
 
     pub fn observe(&mut self) -> Value {
-        let quiescent = self.table.is_empty();
+        let quiescent = self.table.is_empty() && self.iters.is_empty();
         let mut cells = Vec::new();
         let mut hidden: Vec<Value> = Vec::new();
         for ty in 1..=self.ntypes() {
@@ -800,6 +809,12 @@ impl Driver {
     pub fn finish(&mut self) -> Vec<Value> {
         let mut evs = Vec::new();
         while self.abort.is_none() {
+            let Some((&it, _)) = self.iters.iter().next() else { break };
+            let mut ev = self.do_call(&CallSpec { op: "miter_drop".into(), gs: vec![it], ..Default::default() });
+            ev["closing"] = json!(true);
+            evs.push(ev);
+        }
+        while self.abort.is_none() {
             let Some((&g, e)) = self.table.iter().next() else { break };
             let c = CallSpec { op: "drop".into(), targ: e.ty, ty: e.ty, dy: e.dy, gs: vec![g], ..Default::default() };
             let mut ev = self.do_call(&c);
@@ -822,7 +837,7 @@ impl Driver {
         matches!(
             op,
             "fetch" | "try_fetch" | "fetch_mut" | "try_fetch_mut" | "try_fetch_by_id" | "try_fetch_mut_by_id" | "has_value"
-                | "has_value_raw" | "system_data" | "meta_iter" | "meta_iter_mut" | "clone"
+                | "has_value_raw" | "system_data" | "meta_iter" | "meta_iter_mut" | "clone" | "miter_new" | "miter_new_mut" | "miter_next"
         )
     }
 
@@ -994,6 +1009,49 @@ impl Driver {
                     }
                     _ => panic!("harness: shapes have 1 or 2 members"),
                 }
+            }
+            "miter_new" | "miter_new_mut" => {
+                // creating the iterator borrows nothing (pinned code); it lives in `iters`
+                let it = c.gs[0];
+                let (w, meta) = (self.w(), self.meta());
+                let r = if op == "miter_new" { guarded(|| IterBox::R(meta.iter(w))) } else { guarded(|| IterBox::W(meta.iter_mut(w))) };
+                match r {
+                    Ok(b) => {
+                        self.iters.insert(it, b);
+                        out("unit", "", vec![])
+                    }
+                    Err(y) => {
+                        // creating an iterator cannot fail in any behaviour of the model: the rest of the
+                        // history (which steps this iterator) cannot be executed, end the block here
+                        self.abort = Some(format!("{} panicked ({})", op, y));
+                        out("panic", y, vec![])
+                    }
+                }
+            }
+            "miter_next" => {
+                let it = c.gs[0];
+                *gs = vec![it];
+                let Some(ib) = self.iters.get_mut(&it) else { return out("panic", "other", vec![]) };
+                let r: Res<Option<(Box<dyn AnyGuard>, char)>> = match ib {
+                    IterBox::R(i) => guarded(|| i.next().map(|x| (Box::new(x) as Box<dyn AnyGuard>, 'r'))),
+                    IterBox::W(i) => guarded(|| i.next().map(|x| (Box::new(x) as Box<dyn AnyGuard>, 'w'))),
+                };
+                match r {
+                    Ok(Some((g, kind))) => {
+                        let x = g.read();
+                        let t = self.abs(x.0);
+                        let v = self.val(x);
+                        let gid = self.grant(g, t.max(0) as u32, 0, kind);
+                        gs.push(gid);
+                        out("guard", "", vec![v])
+                    }
+                    Ok(None) => out("none", "", vec![]),
+                    Err(y) => out("panic", y, vec![]),
+                }
+            }
+            "miter_drop" => {
+                let Some(ib) = self.iters.remove(&c.gs[0]) else { return out("panic", "other", vec![]) };
+                match guarded(move || drop(ib)) { Ok(()) => out("unit", "", vec![]), Err(y) => out("panic", y, vec![]) }
             }
             "meta_iter" | "meta_iter_mut" => {
                 gs.clear();
